@@ -104,6 +104,9 @@ def run_episode(rec, root, rng, rules, max_steps, policy, text, hints, steps_scr
         if D.too_big(cur_sh) or S.has_nonfinite(cur_sh):
             status = "bounded"
             break
+        if MR.EPISODE.get("underflow"):
+            status = "bounded"      # a fold landed in the underflow region of a double: nothing to compare with the start any more
+            break
         if MR.EPISODE["folded"]:
             folded = True   # some fold of this episode could not be given its exact value
         rec.ev()
